@@ -993,10 +993,10 @@ def reuse_shapes(base: List[str], kind: str, depth: int, eps: List[str]) -> List
                               ["sattach", absname(base + ["x"]), eps[0], "2", True], ["del", "/", rel("x")],
                               ["move", "/", rel("y"), rel("x")], ["copy", "/", rel("x"), rel("y"), False]])
     # delete, re-create the same structure with the same schemas at the same path
-    H.append(pre + mk("x") + [["del", "/", rel("x")]] + mk("x") + [["move", "/", rel("x"), rel("y")]] + mk("x")
-             + [["del", "/", rel("y")], ["move", "/", rel("x"), rel("y")], ["move", "/", rel("y"), rel("x")]])
+    H.append(pre + mk("x") + [["del", "/", rel("x")]] + mk("x") + [["move", "/", rel("x"), rel("y")], ["copy", "/", rel("y"), rel("x"), False],
+                                                                     ["del", "/", rel("y")], ["move", "/", rel("x"), rel("y")]])
     # swap two annotated nodes via a temporary name
-    H.append(pre + mk("x") + _subject(None, base, "y", kind, depth, list(reversed(eps)), ["2", "0", "1"])
+    H.append(pre + mk("x") + _subject(None, base, "y", kind, min(depth, 1), list(reversed(eps)), ["2", "0", "1"])
              + [["move", "/", rel("x"), rel("tmp")], ["move", "/", rel("y"), rel("x")], ["move", "/", rel("tmp"), rel("y")],
                 ["move", "/", rel("x"), rel("tmp")], ["move", "/", rel("y"), rel("x")], ["move", "/", rel("tmp"), rel("y")],
                 ["reopen", False, "file"]])
@@ -1063,9 +1063,8 @@ def reuse_patterns() -> List[List[list]]:
     H: List[List[list]] = []
     H += reuse_shapes([], "D", 1, [bb, dd])
     H += reuse_shapes([], "G", 3, [aa, cc, bb])
-    H += reuse_shapes(["b"], "G", 1, [bb, aa])[:5]
-    H += reuse_shapes(["b"], "G", 2, [cc, dd, aa, bb])[2:]
-    H += reuse_shapes(["a", "c"], "D", 1, [cc, aa])[:4]
+    g1, g2, d2 = reuse_shapes(["b"], "G", 1, [bb, aa]), reuse_shapes(["b"], "G", 2, [cc, dd, aa, bb]), reuse_shapes(["a", "c"], "D", 1, [cc, aa])
+    H += [g1[0], g1[2], g1[4], g2[1], g2[3], g2[5], g2[7], d2[1], d2[2]]
     return H
 
 
